@@ -104,7 +104,11 @@ def gen_rust():
     o.append("#[derive(ValueEnum, Debug, Clone, Copy, PartialEq)]\npub enum Mode {\n")
     for v in ENUM["variants"]:
         if v["aliases"]:
-            o.append("    #[value(%s)]\n" % ", ".join('alias = "%s"' % a for a in v["aliases"]))
+            # the first alias through `alias`, the others through `aliases`: the attribute calls accumulate
+            parts = ['alias = "%s"' % v["aliases"][0]]
+            if len(v["aliases"]) > 1:
+                parts.append("aliases = [%s]" % ", ".join('"%s"' % a for a in v["aliases"][1:]))
+            o.append("    #[value(%s)]\n" % ", ".join(parts))
         o.append("    %s,\n" % v["rust"])
     o.append("    #[value(skip)]\n    %s,\n}\n" % ENUM["skipped"])
     o.append("impl Mode { pub fn name(&self) -> &'static str { match self { %s Mode::%s => \"<skipped>\" } } }\n" % (
